@@ -13,7 +13,8 @@ EXTENDS Payments, Json, IOUtils, SequencesExt
 Steps == ndJsonDeserialize(IOEnv.PM_STEPS)
 ToNat(str) == CHOOSE n \in 0..200 : ToString(n) = str
 K == [fee |-> ToNat(IOEnv.PM_FEE), pct |-> ToNat(IOEnv.PM_PCT),
-      revokeValidates |-> IOEnv.PM_REVOKE_VALIDATES = "true"]
+      revokeValidates |-> IOEnv.PM_REVOKE_VALIDATES = "true",
+      vlim |-> ToNat(IOEnv.PM_VLIM)]   \* payment velocity limit of the node the steps were recorded from
 KFix == [K EXCEPT !.revokeValidates = TRUE]
 Mon == IOEnv.PM_MON
 Exclude == IOEnv.PM_EXCLUDE
